@@ -84,6 +84,11 @@ def eval_shuffle(expr: ast.AST, names: Dict[str, object], attrs: Dict[str, objec
 
     if isinstance(expr, ast.Name) and expr.id in arrays:
         return arrays[expr.id]
+    if isinstance(expr, ast.Attribute) and expr.attr in ("T", "mT"):
+        base = eval_shuffle(expr.value, names, attrs, arrays)
+        if len(base.shape) == 2:
+            return base.transpose(0, 1)
+        raise Unfoldable(".T of a non-matrix")
     if isinstance(expr, ast.Call) and call_name(expr) in ("torch.arange",) and len(expr.args) == 1:
         return ND.arange(ints(expr.args)[0])
     if isinstance(expr, ast.Call) and isinstance(expr.func, ast.Attribute):
